@@ -17,7 +17,8 @@ from vlib.batch import Batch, short_hash, unjson
 PROPERTY = 'C19'
 LEVEL = 'exploration'
 RULE = ('fixed corpus (one case per mechanism: every cut class, byte-at-a-time, >4 KiB both directions, 1-5 calls in flight, '
-        'both directions, every receiver behaviour, both firewalls on both sides, two connections in one server tree, every '
+        'both directions, every receiver behaviour, both firewalls on both sides, two connections in one server tree, two and three outgoing '
+        'connections in one client tree (the Node.add() topology) with failing remote handlers, every '
         'hostile packet class, every dispatcher attribute name as hostile metadata key) + every single cut of a short call and of '
         'its answer + seeded random cases of three kinds: calls (generated JSON payloads, 1-5 in flight, random chunk sizes), '
         'hostile (grammar of JSON mutations / wrong types per field / hostile metadata keys / unhashable channels / deep nesting / '
@@ -41,7 +42,7 @@ REQUIRED = ['calls_executed_remotely', 'results_received', 'cut_inside_packet', 
             'recv_firewall_rejections', 'firewall_consulted', 'receiver_raised', 'receiver_generator', 'hostile_packets',
             'hostile_meta_keys_tried', 'hostile_unhashable_channels', 'hostile_truncated', 'hostile_wrong_type', 'hostile_deep_nesting',
             'hostile_oversized', 'hostile_value_packets_inflight', 'local_canary_dispatched', 'roundtrip_events', 'roundtrip_values',
-            'two_connection_cases', 'call_style_waits', 'attr_snapshots']
+            'two_connection_cases', 'call_style_waits', 'attr_snapshots', 'hub_topology', 'hub_receiver_raised_with_other_connection_in_flight']
 REQUIRED_OBLIGATIONS = ['EXACTLY_ONCE', 'RESULT_BACK', 'PAYLOAD_PRESERVED', 'ROUNDTRIP', 'FIREWALL_SEND', 'FIREWALL_RECV',
                         'LOOP_SURVIVES', 'ATTRS_INTACT']
 WORKER_TIMEOUT = {'quick': 300, 'thorough': 1500}
@@ -111,6 +112,12 @@ def classes():
         @handler('write', priority=100)
         def _vq7_on_write(self, *args, **kwargs):
             self.vt.on_write(args)
+
+        @handler('write', channel='*', priority=100)
+        def _vq7_on_write_hub(self, event, *args, **kwargs):
+            # a tree with several outgoing connections (what Node.add() builds): every client-side Protocol has its own channel
+            if self.vt.hub:
+                self.vt.on_write_hub(event.channels, args)
 
         @handler('vq7_read')
         def _vq7_on_read(self, k, data):
@@ -282,8 +289,9 @@ LOG_BUDGET = 4000
 
 
 class Tree:
-    def __init__(self, world, tid, server, nprotos, fw):
+    def __init__(self, world, tid, server, nprotos, fw, hub=False):
         from circuits.node.protocol import Protocol
+        self.hub = hub
 
         from vlib.inject import FakeSock
         C = classes()
@@ -300,7 +308,7 @@ class Tree:
         table = {}
         for k in range(nprotos):
             sock = FakeSock(('127.0.0.1', 40000 + k)) if server else None
-            p = Protocol(sock=sock, server=(object() if server else None), channel='node',
+            p = Protocol(sock=sock, server=(object() if server else None), channel=('node%d' % k if hub else 'node'),
                          receive_event_firewall=self.fw_recv, send_event_firewall=self.fw_send)
             # one tree = one process: partition the class-level in-flight table per tree (see ASSUMPTIONS).  If the
             # table is (made) per instance by the code under test, nothing is touched.
@@ -313,6 +321,9 @@ class Tree:
             self.protos.append(p)
             self.socks.append(sock)
         self.apps = [C['App'](self, tag, ch).register(self.root) for ch, tag in sorted(CHANNEL_APPS.items())]
+        if hub:
+            # an event without channels is fired on the receiving Protocol's own channel: the 'node' application listens on each of them
+            self.apps += [C['App'](self, 'node', 'node%d' % k).register(self.root) for k in range(nprotos)]
         self.sender = C['Sender'](self).register(self.root)
         self.tick_errors = []
 
@@ -339,7 +350,16 @@ class Tree:
         p.fire = fire
         p.fireEvent = fire
 
+    def on_write_hub(self, channels, args):
+        k = [i for i in range(len(self.protos)) if 'node%d' % i in channels]
+        if len(k) != 1 or len(args) != 1 or not isinstance(args[0], bytes):
+            self.world.log.append(('junk_write', self.tid))
+            return
+        self.links[k[0]].wrote(self, args[0])
+
     def on_write(self, args):
+        if self.hub:
+            return
         if self.server:
             if len(args) != 2 or not isinstance(args[1], bytes):
                 self.world.log.append(('junk_write', self.tid))
@@ -370,10 +390,13 @@ class Tree:
 class Link:
     """One connection: client tree <-> one Protocol of the server tree."""
 
-    def __init__(self, world, k, ctree, stree, cuts, burst):
+    def __init__(self, world, k, ctree, stree, cuts, burst, hub=False):
         self.world = world
         self.k = k
-        self.ends = {'c2s': (ctree, 0, stree, k), 's2c': (stree, k, ctree, 0)}
+        if hub:      # the client tree holds several client-side Protocols, every server tree one
+            self.ends = {'c2s': (ctree, k, stree, 0), 's2c': (stree, 0, ctree, k)}
+        else:
+            self.ends = {'c2s': (ctree, 0, stree, k), 's2c': (stree, k, ctree, 0)}
         self.stream = {'c2s': bytearray(), 's2c': bytearray()}
         self.delivered = {'c2s': 0, 's2c': 0}
         self.ptr = {'c2s': 0, 's2c': 0}
@@ -452,19 +475,36 @@ class World:
         conns = case.get('conns', 1)
         fw = case.get('fw', {})
         cuts = case.get('cuts', {})
-        self.server = Tree(self, 's', True, conns, fw.get('s'))
-        self.clients = [Tree(self, 'c%d' % k, False, 1, fw.get('c')) for k in range(conns)]
-        self.trees = [self.server] + self.clients
-        self.links = [Link(self, k, self.clients[k], self.server, cuts, case.get('burst', 0)) for k in range(conns)]
-        self.server.links = list(self.links)
-        for k, c in enumerate(self.clients):
-            c.links = [self.links[k]]
+        self.hub = None
+        if case.get('topology') == 'hub':
+            # one tree with ``conns`` outgoing connections (client-side Protocols on channels node0, node1, ...), each to its own
+            # server tree with a single accepted connection; 'c<k>' = the hub's end of connection k, 's<k>' = server tree k's end
+            self.hub = Tree(self, 'c', False, conns, fw.get('c'), hub=True)
+            self.servers = [Tree(self, 's%d' % k, True, 1, fw.get('s')) for k in range(conns)]
+            self.trees = [self.hub] + self.servers
+            self.links = [Link(self, k, self.hub, self.servers[k], cuts, case.get('burst', 0), hub=True) for k in range(conns)]
+            self.hub.links = list(self.links)
+            for k, t in enumerate(self.servers):
+                t.links = [self.links[k]]
+            self.marks.add('hub_topology')
+        else:
+            self.server = Tree(self, 's', True, conns, fw.get('s'))
+            self.clients = [Tree(self, 'c%d' % k, False, 1, fw.get('c')) for k in range(conns)]
+            self.trees = [self.server] + self.clients
+            self.links = [Link(self, k, self.clients[k], self.server, cuts, case.get('burst', 0)) for k in range(conns)]
+            self.server.links = list(self.links)
+            for k, c in enumerate(self.clients):
+                c.links = [self.links[k]]
         self.settle()   # registered events
 
     # -- sender side ---------------------------------------------------------------------------
     def endpoint(self, frm):
         """'c0' -> (client tree 0, its protocol); 's1' -> (server tree, protocol of connection 1)."""
         k = int(frm[1:] or 0)
+        if self.hub is not None:
+            if frm[0] == 'c':
+                return self.hub, self.hub.protos[k], self.servers[k]
+            return self.servers[k], self.servers[k].protos[0], self.hub
         if frm[0] == 'c':
             return self.clients[k], self.clients[k].protos[0], self.server
         return self.server, self.server.protos[k], self.clients[k]
@@ -694,6 +734,9 @@ def run_calls(case):
             b = w.behaviour.get(name, 'ret')
             if b in BOOM:
                 bump('receiver_raised')
+                if w.hub is not None and frm[0] == 's' and sum(1 for c2 in calls if c2['from'][0] == 's' and c2['from'] != frm
+                                                               and c2.get('wave', 0) == c.get('wave', 0)):
+                    bump('hub_receiver_raised_with_other_connection_in_flight')
             if b in ('gen', 'genboom'):
                 bump('receiver_generator')
             if len(got) != 1:
@@ -1263,7 +1306,7 @@ def gen_pred(rng, names):
 
 def gen_calls(rng, hot_rate=0.15):
     """hot = payloads may contain the delimiter / a key named value (triggers of two known findings)."""
-    conns = 2 if rng.random() < 0.15 else 1
+    conns = rng.choice([2, 2, 3]) if rng.random() < 0.25 else 1
     n = rng.choice([1, 1, 2, 2, 3, 4, 5])
     hot = rng.random() < hot_rate
     behaviours = ['ret', 'ret', 'echo', 'echo', 'none', 'gen', 'boom', 'genboom']
@@ -1298,6 +1341,8 @@ def gen_calls(rng, hot_rate=0.15):
             if min(cuts[d]) < 256:
                 cuts[d] = [rng.choice([512, 1024, 1460, 4096, 4096, 8192]), rng.choice([4096, BIG])]
     case = {'kind': 'calls', 'conns': conns, 'calls': calls, 'behaviour': behaviour, 'cuts': cuts, 'burst': rng.choice([0, 0, 1, 2])}
+    if conns > 1 and rng.random() < 0.5:
+        case['topology'] = 'hub'
     if rng.random() < 0.35:
         fw = {}
         for side in ('c', 's'):
@@ -1466,10 +1511,12 @@ def call(frm, name, args=(), kwargs=None, channels=('app',), style='direct', wav
             'wave': wave, 'flags': flags}
 
 
-def calls_case(calls, behaviour=None, cuts=None, conns=1, fw=None, burst=0):
+def calls_case(calls, behaviour=None, cuts=None, conns=1, fw=None, burst=0, topology=None):
     c = {'kind': 'calls', 'conns': conns, 'calls': calls, 'behaviour': behaviour or {}, 'cuts': cuts or {}, 'burst': burst}
     if fw:
         c['fw'] = fw
+    if topology:
+        c['topology'] = topology
     return c
 
 
@@ -1531,6 +1578,16 @@ def corpus():
                          {'hello': 'ret', 'ping': 'ret', 'x': 'ret', 'evt9': 'ret'}, conns=2))
     cs.append(calls_case([call('s0', 'x', [3]), call('s1', 'evt9', [4])], {'x': 'ret', 'evt9': 'ret'}, conns=2))
     cs.append(calls_case([call('c0', 'hello', [1]), call('c1', 'ping', [2])], {'hello': 'ret', 'ping': 'ret'}, conns=2))
+    # one tree with several OUTGOING connections (what Node.add() builds: client-side Protocols side by side), each to its own server tree
+    cs.append(calls_case([call('c0', 'hello', [1]), call('c1', 'ping', [2]), call('s0', 'x', [3]), call('s1', 'evt9', [4])],
+                         {'hello': 'ret', 'ping': 'gen', 'x': 'ret', 'evt9': 'echo'}, conns=2, topology='hub'))
+    cs.append(calls_case([call('s0', 'hello', [1]), call('s1', 'ping', [2])], {'hello': 'boom', 'ping': 'gen'}, conns=2, topology='hub'))
+    cs.append(calls_case([call('s0', 'hello', [1], style='call'), call('s1', 'ping', [2], style='call')], {'hello': 'genboom', 'ping': 'gen'},
+                         {'c2s': [7], 's2c': [5]}, conns=2, topology='hub'))
+    cs.append(calls_case([call('s1', 'hello', [1], wave=1), call('s0', 'ping', [2], wave=0), call('s2', 'x', [3], wave=1)],
+                         {'hello': 'boom', 'ping': 'gen', 'x': 'ret'}, conns=3, topology='hub'))
+    cs.append(calls_case([call('c0', 'hello', [1]), call('c1', 'ping', [2]), call('s1', 'x', [3])], {'hello': 'boom', 'ping': 'genboom', 'x': 'boom'},
+                         conns=2, topology='hub'))
     # hostile: one case per class
     for side in ('s', 'c'):
         cs.append({'kind': 'hostile-attrs', 'side': side, 'inflight': False})
